@@ -1,5 +1,6 @@
 (* C17 - Board-settings files are read back as the boards that were written, in order.
    Only statements, each closed by [exact]; proofs are in the files imported below. *)
+From BE Require Import Gen.JsonFns Proofs.JsonGen Proofs.JsonGenCor.
 From BE Require Import Model.Json Model.Schema Model.Pbn Gen.JsonFraming Gen.Schemas Gen.Regexes Proofs.Json Proofs.Pbn Proofs.Pins.
 From Coq Require Import ZArith.
 Local Open Scope string_scope.
@@ -31,6 +32,31 @@ Theorem C17_json_schema :
   validates setting_schema (JObj [("board_settings"%string, JArr (map setting_json ss))]) = true.
 Proof. exact settings_schema_valid. Qed.
 Print Assumptions C17_json_schema.
+
+(* JsonBoardSettingWriter.write REGENERATED from writer.py on every run equals the hand model, for every setting *)
+Theorem C17_generated_setting_writer_is_hand_model :
+  forall s : setting, g_setting_json s = setting_json s.
+Proof. exact g_setting_json_eq. Qed.
+Print Assumptions C17_generated_setting_writer_is_hand_model.
+
+(* convert_board_setting regenerated from parser.py equals the hand model on EVERY JSON value *)
+Theorem C17_generated_setting_reader_is_hand_model :
+  forall j, py_bind (g_setting_of_json j) shape_setting = setting_of_json j.
+Proof. exact g_setting_of_json_eq. Qed.
+Print Assumptions C17_generated_setting_reader_is_hand_model.
+
+Theorem C17_generated_settings_reader_is_hand_model :
+  forall doc,
+  py_bind (g_parse_board_settings doc) (map_opt shape_setting) = Json.parse_board_settings doc.
+Proof. exact g_parse_board_settings_eq. Qed.
+Print Assumptions C17_generated_settings_reader_is_hand_model.
+
+(* the property, for the regenerated writer and reader *)
+Theorem C17_json_settings_roundtrip_generated :
+  forall ss,
+  exists ss', g_read_settings (g_settings_doc ss) = Some ss' /\ Forall2 setting_equiv ss ss'.
+Proof. exact g_settings_roundtrip. Qed.
+Print Assumptions C17_json_settings_roundtrip_generated.
 
 (* non-vacuity *)
 Theorem C17_json_example :
